@@ -33,12 +33,19 @@ def pointOfLetter (l : String) : Option Nat :=
   [pAccept, pHandshake, pBeforeLocation, pFoundProduct, pAfterLocation, pForward, pReadResponse, pRequestFinish, pFinish].find?
     fun p => letterOf p == l
 
+def hexOfString (t : String) : String := hexField t.toUTF8.toList
+
+/-- the note `Redirect()` writes for a GET: `<a href="URL">Found</a>.\n` + Fprintln's newline -/
+def redirectBody (loc : String) : String := hexOfString ("<a href=\"" ++ loc ++ "\">Found</a>.\n\n")
+
+/-- `status|marker|body in hex`; the bodies are the ones the harness' fake modules / backend produce -/
 def renderResp : Resp → String
-  | .module pt i => "200/" ++ letterOf pt ++ toString i
-  | .backend => "200/backend"
-  | .internalErr => "500/-"
-  | .redirect pt i => "302/L=/to" ++ letterOf pt ++ toString i
-  | .default200 => "200/-"
+  | .module pt i => "200|" ++ letterOf pt ++ toString i ++ "|" ++ hexOfString "m"
+  | .backend => "200|backend|" ++ hexOfString "backend-body"
+  | .internalErr => "500|-|-"
+  | .redirect pt i => "302|L=/to" ++ letterOf pt ++ toString i ++ "|" ++ redirectBody ("/to" ++ letterOf pt ++ toString i)
+  | .default200 => "200|-|-"
+  | .redirectPlus pt i => "302|L=/to" ++ letterOf pt ++ toString i ++ "|?"
   | .other => "other"
 
 def parseName (s : String) : Option (Nat × Nat) :=
@@ -46,19 +53,25 @@ def parseName (s : String) : Option (Nat × Nat) :=
   | some p, some i => some (p, i)
   | _, _ => none
 
+/-- a response the client read; anything that is not byte for byte one of the expected responses is `other`,
+    except a 302 with the right Location and a different body: `redirectPlus` -/
 def parseResp (s : String) : Resp :=
-  if s == "200/backend" then .backend
-  else if s == "500/-" then .internalErr
-  else if s == "200/-" then .default200
-  else if s.startsWith "302/L=/to" then
-    match parseName (s.drop 9).toString with
-    | some (p, i) => .redirect p i
-    | none => .other
-  else if s.startsWith "200/" then
-    match parseName (s.drop 4).toString with
-    | some (p, i) => .module p i
-    | none => .other
-  else .other
+  match s.splitOn "|" with
+  | [code, src, _] =>
+    let cand : Resp :=
+      if code == "200" && src == "backend" then .backend
+      else if code == "500" && src == "-" then .internalErr
+      else if code == "200" && src == "-" then .default200
+      else if code == "302" && src.startsWith "L=/to" then
+        (match parseName (src.drop 5).toString with | some (p, i) => .redirect p i | none => .other)
+      else if code == "200" then
+        (match parseName src with | some (p, i) => .module p i | none => .other)
+      else .other
+    if renderResp cand == s then cand
+    else match cand with
+      | .redirect p i => .redirectPlus p i
+      | _ => .other
+  | _ => .other
 
 def renderConn (n : Nat) (o : ConnOut) : String :=
   if o.unknown then "model:unknown-reaction" else
